@@ -25,6 +25,21 @@ def check(rep):
             rep.fail("oracle", b, c.ident(), expected="tree of whole, unmodified token copies; sanitisable; additive mass", observed=b)
         if len(v.nodes) > 1:
             distinct.add((c.text, tuple(c.run.picks), tuple(c.run.targets)))
+    # the accessors on a molecule that is still growing (MolGen.smiles / weight / mol between the elements of the string)
+    stepwise = 0
+    seen = set()
+    for c in cases:
+        if c.text in seen or c.run.gen is None or len(seen) >= (60 if rep.tier == "quick" else 1500):
+            continue
+        seen.add(c.text)
+        r = genrun.stepwise_observed(c.text, 1000 + len(seen))
+        if r is None:
+            continue
+        stepwise += 1
+        for b in r[0]:
+            rep.fail("oracle", b, {"text": c.text, "seed": 1000 + len(seen), "mode": "element by element, accessors read in between"},
+                     expected="every accessor describes the molecule held", observed=b)
+    stats = {**stats, "stepwise_generations_observed": stepwise}
     rep.coverage.update({"evaluations": len(cases), "molecules_checked": mols, "distinct_nontrivial": len(distinct),
                          "rule": "as C04; distinct_nontrivial = distinct (string, picks, targets) whose molecule has >= 2 residues",
                          "traces_validated_against_model": sum(1 for c in cases if not c.near), **stats,
